@@ -300,6 +300,60 @@ fn stop_replication<C: Relationship>(
     }
 }
 
+/// Verification hooks: thin wrappers exposing the crate-private relation graph.
+#[cfg(feature = "verif_hooks")]
+pub mod verif {
+    use super::*;
+
+    /// A second relationship type, to exercise edges of different types between the same entities.
+    #[derive(Component)]
+    #[relationship(relationship_target = HookTargets)]
+    pub struct HookRel(pub Entity);
+
+    /// Target side of [`HookRel`].
+    #[derive(Component)]
+    #[relationship_target(relationship = HookRel)]
+    pub struct HookTargets(Vec<Entity>);
+
+    /// Owns a [`RelatedEntities`] and forwards to its private methods.
+    #[derive(Default)]
+    pub struct Graph(RelatedEntities);
+
+    impl Graph {
+        /// Calls `add_relation` with `ChildOf` (`kind == 0`) or [`HookRel`] as the relationship type.
+        pub fn add(&mut self, kind: u8, source: Entity, target: Entity) {
+            if kind == 0 {
+                self.0.add_relation::<ChildOf>(source, target);
+            } else {
+                self.0.add_relation::<HookRel>(source, target);
+            }
+        }
+
+        /// Calls `remove_relation`.
+        pub fn remove(&mut self, kind: u8, source: Entity, target: Entity) {
+            if kind == 0 {
+                self.0.remove_relation::<ChildOf>(source, target);
+            } else {
+                self.0.remove_relation::<HookRel>(source, target);
+            }
+        }
+
+        /// Calls `rebuild_graphs` and returns `graph_index` for each given entity plus `graphs_count`.
+        pub fn indices(&mut self, entities: &[Entity]) -> (Vec<Option<usize>>, usize) {
+            self.0.rebuild_graphs();
+            (
+                entities.iter().map(|&e| self.0.graph_index(e)).collect(),
+                self.0.graphs_count(),
+            )
+        }
+
+        /// Calls `clear`.
+        pub fn clear(&mut self) {
+            self.0.clear();
+        }
+    }
+}
+
 #[cfg(test)]
 mod tests {
     use test_log::test;
